@@ -152,6 +152,7 @@ def run(ctx):
         jobs.append({"cfg": cfg, "env": env, "N": max(N, 1000), "seed": rng.next() & 0xffffffff, "idx": i, "style": "long"})
     res = cr.sweep(ctx, PID, exe, jobs, long_ops, oracle_total, timeout=600 if ctx.quick else 3000)
     ctx.count("long_stream_frames", sum(j["N"] for j, *_ in res))
+    broken_corr = [(job, tr) for job, ops, tr, bad, info in res if getattr(tr, "diff", None) and not bad]
     ctx.cov["distinct_nontrivial"] = ctx.cov.get("distinct_nontrivial", 0) + len(distinct)
     # ---- numeric falsifier (real code)
     numeric = None
@@ -161,6 +162,17 @@ def run(ctx):
         ctx.notes.append("checks/c04_numeric.py not present: ramp / impulse / sine-phase measurements not run")
     if numeric is not None:
         numeric.run_numeric(ctx, ctx.quick)
+    # ---- a long stream on which model and code disagree (clock words, remM, counts): search that configuration for a misalignment
+    for job, tr in broken_corr:
+        found = None
+        if numeric is not None and hasattr(numeric, "confirm"):
+            try:
+                found = numeric.confirm(job["cfg"], job["env"])
+            except Exception as ex:
+                found = None
+        if found:
+            ctx.violation("C04 fails on the real code: %s (%s %s); the engine's clock/phase bookkeeping also left the Lean count model at %s" % (
+                found, cr.create_line(job["cfg"]), job["env"], tr.diff[1]), {"cfg": job["cfg"], "env": job["env"], "measured": found, "plan": tr.plan})
     # ---- verdicts
     for cfg, env, tr, p in problems:
         rep = {"cfg": cfg, "env": env, "plan": tr.plan, "problem": p, "replay": "harness/cr/trace.c: " + cr.create_line(cfg)}
